@@ -105,6 +105,7 @@ void ParallelAction::onStop() {
     stopAllActions();
 
     held_child_results_.clear();
+    replaying_child_results_.clear();
     loop_.cancel(replay_run_id_);
     replay_run_id_ = 0;
 
@@ -130,10 +131,15 @@ void ParallelAction::onResume() {
         replay_run_id_ = loop_.runNext(
             [this] {
                 replay_run_id_ = 0;
-                auto results = std::move(held_child_results_);
+                replaying_child_results_ = std::move(held_child_results_);
                 held_child_results_.clear();
-                for (auto &item : results)
+                //! 逐个取出处理：若处理过程中本动作被 reset()/stop()（如在 final 回调里），
+                //! 剩余的旧结果随之丢弃，不会作用到下一轮运行上
+                while (!replaying_child_results_.empty()) {
+                    auto item = replaying_child_results_.front();
+                    replaying_child_results_.erase(replaying_child_results_.begin());
                     onChildFinished(item.first, item.second);
+                }
             },
             "ParallelAction::onResume, replay");
     }
@@ -146,6 +152,7 @@ void ParallelAction::onReset() {
     finished_children_.clear();
 
     held_child_results_.clear();
+    replaying_child_results_.clear();
     loop_.cancel(replay_run_id_);
     replay_run_id_ = 0;
 
